@@ -70,6 +70,18 @@ TABLE={ # id: (property, demo file, package dir, -run pattern, needs)
  "C07-d":("C07","zz_seed_demo_test.go","transports/p2p/p2psync","TestSeedDemo","a batch with a wrong checkpoint-height header followed by at least one more accepted header"),
  "C08-d":("C08","zz_seed_demo_test.go","database/repository","TestSeedDemo","a STALE or ORPHAN header at a height inside the requested page"),
  "C11-d":("C11","zz_seed_demo_test.go","service","TestSeedDemo","a submission stored as STALE or ORPHAN"),
+ "C09-d":("C09","zz_seed_demo_test.go","transports/http/endpoints/api/access","TestSeedDemo","auth on and a Bearer value that is a proper prefix of the admin token (incl. empty)"),
+ "C10-d":("C10","zz_seed_demo_test.go","service","TestSeedDemo","a tokens-table row equal to the configured admin token"),
+ "C13-d":("C13","zz_seed_demo_test.go","service","TestSeedDemo","a getheaders whose stop hash is a stored STALE/ORPHAN header"),
+ "C14-d":("C14","zz_seed_demo_test.go","internal/wire","TestSeedDemo","an inv frame that really carries more than 1000 vectors"),
+ "C17-d":("C17","zz_seed_demo_test.go","database","TestSeedDemo","an exported longest chain whose tip height is an exact multiple of 1000 (incl. 0)"),
+ "C19-d":("C19","zz_seed_demo_test.go","domains","TestSeedDemo","difficulty bits with the sign bit set, exponent <= 3 and a mantissa that survives the shift"),
+ "C04-d":("C04","zz_seed_demo_test.go","service","TestSeedDemo","common-ancestor with >= 3 hashes where the first and last converge above the point where a middle one joins"),
+ "C16-e":("C16","zz_seed_demo_test.go","transports/http/endpoints/api/merkleroots","TestSeedDemo","GET merkleroot with a well-formed negative batchSize"),
+ "C02-e":("C02","zz_seed_demo_test.go","transports/http/endpoints/api/merkleroots","TestSeedDemo","a verify item whose root is on the longest chain at a different height than submitted"),
+ "C12-e":("C12","zz_seed_demo_test.go","notification","TestSeedDemo","a webhook reply with status 200 whose body cannot be read"),
+ "C01-e":("C01","zz_seed_demo_test.go","database","TestSeedDemo","a stored ORPHAN at or above the lowest height a reorganisation demotes"),
+ "C05-e":("C05","zz_seed_demo_test.go","database","TestSeedDemo","a restart (database.Init) while the highest stored header is not on the longest chain, e.g. after a kill between the two state updates of a reorganisation"),
 }
 ENV=dict(os.environ,GOFLAGS="-mod=mod",GOPROXY="off")
 def run(cmd,cwd,timeout=1500):
